@@ -68,7 +68,7 @@ func c13population(r *core.Recorder, p c13pop) {
 	ctx, cancel := context.WithCancel(context.Background())
 	defer cancel()
 	startLimit := p.Limit
-	if p.LimitVia == "runtime-change" {
+	if p.LimitVia != "constructor" {
 		startLimit = 1 << 40
 	}
 	c, cfg := rig.NewCache(ctx, rig.CacheOpts{Backend: p.Backend, Dir: c13dir(), Max: startLimit, Shards: p.Shards})
@@ -103,11 +103,23 @@ func c13population(r *core.Recorder, p c13pop) {
 		last[i] = acc{t0, rig.Now()}
 		time.Sleep(3 * time.Millisecond)
 	}
-	if p.LimitVia == "runtime-change" {
+	if p.LimitVia != "constructor" {
+		if p.LimitVia == "runtime-change-burst" {
+			// several changes back to back; the last one is the limit that must govern what follows
+			for k := 0; k < 5; k++ {
+				cfg.Cache.MaxCacheSize.Overwrite(bytesize.ByteSize(p.Limit*int64(3+k) + 1<<30))
+			}
+		}
 		cfg.Cache.MaxCacheSize.Overwrite(bytesize.ByteSize(p.Limit))
 		ok := waitFor(func() bool { l, _ := c.VerifLimits(); return l == p.Limit }, 5*time.Second)
+		if ok && p.LimitVia == "runtime-change-burst" {
+			// notifications of the earlier changes may still be in flight: the limit must stay on the last value
+			time.Sleep(20 * time.Millisecond)
+			l, _ := c.VerifLimits()
+			ok = l == p.Limit
+		}
 		if !ok {
-			r.Violation("C13", "C13:limit-change-not-applied:"+p.Backend, fmt.Sprintf("max_cache_size was changed to %d at run time but the cache still enforces another limit after 5 s", p.Limit),
+			r.Violation("C13", "C13:limit-change-not-applied:"+p.Backend, fmt.Sprintf("max_cache_size was changed to %d at run time (%s) but the cache enforces another limit afterwards", p.Limit, p.LimitVia),
 				map[string]any{"id": p.ID, "population": p}, nil)
 			return
 		}
@@ -176,7 +188,7 @@ func c13population(r *core.Recorder, p c13pop) {
 	cs := map[string]any{"id": p.ID, "population": p}
 	wit := map[string]any{"lru_order": idx, "expected_evicted": keysOf(expectEvicted), "actually_gone": keysOf(gone), "exempt_same_shard": keysOf(exempt), "total": total, "target": target, "ambiguous": keysOf(ambiguous), "reported_size_after": c.VerifByteSize()}
 	cls := fmt.Sprintf("%s:%s", p.Backend, p.Trigger)
-	if p.LimitVia == "runtime-change" {
+	if p.LimitVia != "constructor" {
 		cls += ":after-runtime-limit-change"
 	}
 	switch {
@@ -465,7 +477,10 @@ func c13Run(b core.Batch, r *core.Recorder) {
 				p.LimitVia = "constructor"
 				p.Limit = []int64{total - 1, total, total + 1, total * 2}[(i/2)%4]
 			} else {
-				p.LimitVia = "runtime-change"
+				p.LimitVia = []string{"runtime-change", "runtime-change-burst"}[(i/12)%2]
+				if b.Int("burst_only", 0) == 1 {
+					p.LimitVia = "runtime-change-burst"
+				}
 				p.Limit = []int64{total / 2, total * 3 / 4, total - 1, total, total + 1, total / 3}[(i/2)%6]
 			}
 			if p.Limit < 1 {
@@ -523,6 +538,8 @@ func c13Plan(tier string, seed int64) []core.Batch {
 	var bs []core.Batch
 	for _, be := range []string{"memory", "file"} {
 		bs = append(bs, core.Batch{Name: "evict-" + be, TimeoutS: 1800, Args: map[string]any{"part": "evict", "backend": be, "n": n}})
+		// one P: the notification goroutine started last runs first, the other delivery order of back-to-back changes
+		bs = append(bs, core.Batch{Name: "evict-" + be + "-gomaxprocs1", TimeoutS: 1800, Env: []string{"GOMAXPROCS=1"}, Args: map[string]any{"part": "evict", "backend": be, "n": n / 4, "burst_only": 1}})
 		bs = append(bs, core.Batch{Name: "expiry-" + be, TimeoutS: 1800, Args: map[string]any{"part": "expiry", "backend": be, "interval_checks": ic}})
 	}
 	return bs
@@ -532,7 +549,7 @@ func init() {
 	core.Register(&core.Monitor{
 		ID:    "C13",
 		Level: "exploration",
-		Rule: "eviction: populations of n equal-size entries (all access permutations for n in {3,4}, seeded random n in 5..34 with a random partial re-access order), limit in {T-1, T, T+1, T/2, 3T/4, 2T} set by the constructor or changed at run time, shards in {1,2,3,16,1024}, trigger = synchronous cleanup cycle or a store, both backends; the surviving set must equal the model (nothing below the limit; at or above it the minimal LRU prefix reaching 80 %, same-shard keys exempt on the memory store path); a size-weight case (2.5 MiB vs 100 B); " +
+		Rule: "eviction: populations of n equal-size entries (all access permutations for n in {3,4}, seeded random n in 5..34 with a random partial re-access order), limit in {T-1, T, T+1, T/2, 3T/4, 2T} set by the constructor, changed at run time, or changed six times back to back (the last value must govern; also under GOMAXPROCS=1, where the notification goroutines run in the other order), shards in {1,2,3,16,1024}, trigger = synchronous cleanup cycle or a store, both backends; the surviving set must equal the model (nothing below the limit; at or above it the minimal LRU prefix reaching 80 %, same-shard keys exempt on the memory store path); a size-weight case (2.5 MiB vs 100 B); " +
 			"expiry: n in {1,3,10,40} entries with expiry -1 h / +1 h, one cycle removes exactly the expired; variant with a fresh overwrite of an expired key injected between scan and removal; interval: 1 h -> 2 ms -> 1 h on the real ticker with hook barriers. Access pairs closer than 2 ms are not judged. Non-trivial = distinct population / expiry / interval case.",
 		Assumptions: []string{"LastAccess has wall-clock ms resolution inside the implementation; the harness spaces accesses by 3 ms and does not judge pairs whose recorded windows are closer than 2 ms", "keys sharing the storing key's lock shard are exempt on the memory backend's store-triggered path, as the statement allows"},
 		Plan:        c13Plan,
